@@ -463,8 +463,9 @@ def depth_levels(spec):
 # ---------------------------------------------------------------- strategy
 @st.composite
 def specs(draw, tier='quick', max_books=2, arrays=True, names=True, wholecols=True, errors=True,
-          min_cells=4, max_cells=14, const=None, sheet_classes=None, name_rate=6, arr_rate=10, alias_rate=0, fname_rate=0, undef_rate=0, anchor_rate=0):
+          min_cells=4, max_cells=14, const=None, sheet_classes=None, name_rate=6, arr_rate=10, alias_rate=0, fname_rate=0, undef_rate=0, anchor_rate=0, book_names=None):
     nb = draw(st.integers(1, max_books))
+    bname = draw(st.sampled_from(book_names)) if book_names else 'b%d.xlsx'
     used_names = set()
     books = []
     for b in range(nb):
@@ -474,7 +475,7 @@ def specs(draw, tier='quick', max_books=2, arrays=True, names=True, wholecols=Tr
             cls = draw(st.sampled_from(sheet_classes or ['plain', 'plain', 'space', 'mixed', 'nonascii']))
             cands = [n for n in dict(SHEET_NAMES, **SHEET_NAMES_EXTRA)[cls] if n.upper() not in {x.upper() for x in sheets}]
             sheets.append(draw(st.sampled_from(cands)))
-        books.append({'name': 'b%d.xlsx' % b, 'sheets': sheets})
+        books.append({'name': bname % b, 'sheets': sheets})
     locs = [(b, s) for b in range(nb) for s in range(len(books[b]['sheets']))]
     ncell = draw(st.integers(min_cells, max_cells))
     taken = set()
